@@ -790,7 +790,7 @@ package geojson
 //@   loop 0 assert OldKids: forall j int :: (0 <= j && j < collN(g)) ==> old(KidInv(collChild(g,j)))
 //@   loop 0 assert SameHead: forall j int :: (0 <= j && j < collN(g)) ==> (KidInv(collChild(g,j)) && oEmpty(collChild(g,j)) == old(oEmpty(collChild(g,j))) && oRect(collChild(g,j)) == old(oRect(collChild(g,j))))
 //@   loop 0 assert collChild(g, $i) == child && KidInv(child)
-//@   stmt collection.go:277 use AFrameKid(child, g)
+//@   stmt collection.go:"if count == 0 {" use AFrameKid(child, g)
 //@   loop 0 use forall j int :: AFrameKid(collChild(g, j), g)
 //@   loop 0 use frameFolds(g, $i)
 //@   loop 0 use frameFolds(g, $i+1)
@@ -838,7 +838,7 @@ package geojson
 //@   stmt featurecollection.go:14 assert Kids: forall i int :: (0 <= i && i < len(features)) ==> (collChild(g.collection, i) == objAt(features, i) && KidInv(objAt(features, i)))
 
 //@ lemma pointKid(o Object)
-//@   props C10
+//@   props C10 C08
 //@   requires isPointK(o)
 //@   ensures KidInv(o) && !isCollObjK(o)
 //@ func NewMultiPoint
@@ -852,4 +852,4 @@ package geojson
 //@   loop 0 invariant Frame: forall c *collection :: old($alloc)[c] ==> (c.children == old(c.children) && c.pempty == old(c.pempty) && c.prect == old(c.prect) && c.tree == old(c.tree) && c.extra == old(c.extra))
 //@   loop 0 invariant Kids: collN(g.collection) == $i && (forall j int :: (0 <= j && j < $i) ==> (isPointK(collChild(g.collection, j)) && as(collChild(g.collection, j), *Point).base == geometry.ptAt(points, j)))
 //@   loop 0 assert geometry.ptAt(points, $i) == point
-//@   stmt multipoint.go:15 use forall j int :: pointKid(collChild(g.collection, j))
+//@   stmt multipoint.go:"g.parseInitRectIndex(DefaultParseOptions)" use forall j int :: pointKid(collChild(g.collection, j))
